@@ -3,4 +3,5 @@
 pub mod cbor;
 pub mod cddl;
 pub mod codec;
+pub mod ledger;
 pub mod rng;
